@@ -197,6 +197,13 @@ def run(c):
                    {"op": "request", "conn": cn, "id": "fh%d" % i, "method": "GET", "target": "/machine?comp=goalstate&m=%d" % i,
                     "headers": [["Host", "h"]]},
                    {"op": "close", "conn": cn}]
+    # one keep-alive connection that signs before and after the keeper latches another key (both keys carry the same
+    # incarnation number: the rig's set_key always says 1) and after a clear + re-latch
+    fsteps += [keeper_op("k1"), {"op": "connect", "conn": "ka", "attr": {"uid": 0, "admin": 1, "dip": "168.63.129.16", "dport": 80}}]
+    for i, kop in enumerate(["k1", "k2", "k2", "nokey", "k1", "k1"]):
+        fsteps += [keeper_op(kop), {"op": "request", "conn": "ka", "id": "ka%d" % i, "method": "GET", "target": "/machine?comp=goalstate&ka=%d" % i,
+                                    "headers": [["Host", "h"]]}]
+    fsteps.append({"op": "close", "conn": "ka"})
     ev, d, _ = rig.run_rig({"steps": fsteps, "drain_ms": 200}, "c10_forged", timeout=300)
     nf = 0
     for rid, g, v, e in sign_events(ev, None):
@@ -246,13 +253,19 @@ def run(c):
         rsteps += [{"op": "connect", "conn": cn, "attr": {"uid": 0, "admin": 1, "dip": "168.63.129.16", "dport": 80}},
                    {"op": "request", "conn": cn, "id": "rl%d" % i, "method": "GET", "target": "/machine?comp=goalstate&r=%d" % i, "headers": [["Host", "h"]]},
                    {"op": "close", "conn": cn}]
+    Cg, SC = "cccccccc-0000-4000-8000-00000000000c", "6c" * 32
     rsteps += [{"op": "own_call", "kind": "goalstate", "tag": "rl_own"},
                c12.plan("GET /secure-channel/status", 200, c12.status_doc(B)), {"op": "sleep", "ms": 300},
-               {"op": "own_call", "kind": "imds", "tag": "rl_own2"}]
+               {"op": "own_call", "kind": "imds", "tag": "rl_own2"},
+               # the host moves on to key C while B is latched: the agent acquires and ATTESTS C (id C, MAC under C's secret)
+               c12.plan("POST /secure-channel/key", 200, c12.key_doc(Cg, SC)),
+               c12.plan("GET /secure-channel/status", 200, c12.status_doc(Cg)), {"op": "sleep", "ms": 500},
+               {"op": "own_call", "kind": "goalstate", "tag": "rl_own3"}]
     ev, d, _ = rig.run_rig({"steps": rsteps, "drain_ms": 200}, "c10_relatch", timeout=300)
     rows.append({"e": "issue", "guid": B})
+    rows.append({"e": "issue", "guid": Cg})
     nr = 0
-    for rid, g, v, e in sign_events(ev, None, keys={B: SB}):
+    for rid, g, v, e in sign_events(ev, None, keys={B: SB, Cg: SC}):
         c.count()
         if g is not None:
             nr += 1
